@@ -27,7 +27,7 @@ RULE = (
     "xrange/nx} x cumulative on/off x u in {every tabulated cumulative value, midpoints, half the first "
     "value, 0, 2^-53, 1-2^-53, 1, seed} each alone (sample(1) and scalar sample()) and all together ascending "
     "then descending on the same object; non-trivial = not (flat density on an even grid).  "
-    "cholesky: SPD matrices d = 1..5 (identity, diagonal, correlated, rho=0.999999, Hilbert, A A^T + 0.1 I, "
+    "cholesky: SPD matrices d = 1..5 (identity, diagonal, correlated, rho=0.999999, Hilbert, A A^T + 0.1 I, the correlated ones also scaled by 1e-10, 1e-18, 1e12, "
     "seed) x entry {cholesky_sample with/without means, CholeskySampler.sample(n), .sample()} x n x recording "
     "deviate source {every unit vector e_i, ones, ramp}, two successive draws per sampler; non-trivial = "
     "covariance not diagonal.  indices: all (imax, nrand, unique) in [0..5]^2 x {T,F} x {legacy, new-style, "
@@ -402,6 +402,12 @@ MATRICES = [
                   (0.0, 0.0, 0.0, 0.1, 0.0), (1.0, 1.0, 1.0, 1.0, 1.0)))),
     ("scaled3", ((1e6, 10.0, 0.0), (10.0, 1e-2, 1e-5), (0.0, 1e-5, 1e-6))),
 ]
+# every physical unit is admissible: the same correlated matrices scaled far down and up (a test such as
+# "is this matrix diagonal?" with an absolute tolerance breaks exactly here)
+for _nm in ("corr2", "neg-corr2", "rho0.999999", "aat3"):
+    _cov = dict(MATRICES)[_nm]
+    for _sc in (1e-10, 1e-18, 1e12):
+        MATRICES.append(("%s*%g" % (_nm, _sc), tuple(tuple(v * _sc for v in row) for row in _cov)))
 MEANS = {1: (20.0,), 2: (20.0, -40.0), 3: (0.5, 0.0, -7.25), 4: (1.0, 2.0, 3.0, 4.0),
          5: (-1e3, 0.0, 1e-3, 5.5, 42.0)}
 
